@@ -281,6 +281,9 @@ func runC13(c *kit.Ctx) {
 	lookupContexts(c)
 
 	// ---- R2 -----------------------------------------------------------------
+	c.StartRule("R8", "no mutex is held across a blocking operation (Lock() watches no context)", 1)
+	noBlockingWhileLocked(c, false)
+
 	c.StartRule("R2", "waits for a call's result also watch that call's own context", 2)
 	for _, si := range sels {
 		for _, st := range si.sel.States {
